@@ -658,3 +658,7 @@ impl InstrFormat for ModernEclHooks {
         panic!("stack ECL has no terminal instr")
     }
 }
+
+#[cfg(kani)]
+#[path = "/verif/contracts/kani/ecl_10.rs"]
+mod verif_kani;
